@@ -118,6 +118,13 @@ var labServices = []labSvc{
 	{"vnc", "vnc", "tcp", 5900, ""},
 	{"ssh-auth", "ssh-auth", "tcp", 22, ""},
 	{"ssh-simulator", "ssh-simulator", "tcp", 2222, ""},
+	// the datagram services configured on a stream port as well (a configuration can bind any service to either
+	// protocol; dns serves both)
+	{"dns-tcp", "dns", "tcp", 5353, ""},
+	{"ntp-tcp", "ntp", "tcp", 5123, ""},
+	{"snmp-tcp", "snmp", "tcp", 5161, ""},
+	{"tftp-tcp", "tftp", "tcp", 5069, ""},
+	{"counterstrike-tcp", "counterstrike", "tcp", 5015, ""},
 }
 
 var labScratchDir string
